@@ -9,7 +9,7 @@
     rule only, never on the data: recursion depth of evaluation is bounded by the rule's depth. *)
 From Coq Require Import List.
 From JL Require Import Base.Json Base.F64 Base.Dec2Flt Base.Monad Model.JsOp Model.Eval Spec.Specs.
-From JL Require Import Proofs.MonadLaws Proofs.Totality Props.C04.
+From JL Require Import Proofs.MonadLaws Proofs.Totality Proofs.Scan Props.C04.
 From Coq Require Import String NArith ZArith.
 Local Open Scope string_scope.
 Import ListNotations.
@@ -18,13 +18,13 @@ Theorem C01_no_panic_no_hang_partial :
   scanner_lemmas ->
   forall n r d, vdepth r < n ->
     (exists v, snd (apply_fuel n r d) = Ok v) \/ (exists e, snd (apply_fuel n r d) = Err e).
-Proof. intros [H1 H2]. exact (no_panic_no_hang H1 H2). Qed.
+Proof. intros H2. exact (no_panic_no_hang str_to_number_spec H2). Qed.
 Print Assumptions C01_no_panic_no_hang_partial.
 
 Theorem C01_apply_total_partial :
   scanner_lemmas ->
   forall r d, (exists v, snd (apply r d) = Ok v) \/ (exists e, snd (apply r d) = Err e).
-Proof. intros [H1 H2]. exact (apply_total H1 H2). Qed.
+Proof. intros H2. exact (apply_total str_to_number_spec H2). Qed.
 Print Assumptions C01_apply_total_partial.
 
 (** the public helpers that return a Result return Ok or Err; the others are total functions *)
